@@ -390,6 +390,9 @@ func (c *ctx) evalRange(cl *RangeClaim, pending *batch, rcfg, id string) {
 		// sets with a shared node object (known finding), the model has no aliasing: skipped there
 		if rcfg[0] == '0' && proofSharesNode(cl.Proof) {
 			res.Hit("range-model:multi-skipped-shared-node")
+		} else if !c.f.Thorough() && !strings.HasPrefix(cl.Kind, "honest") && strings.HasPrefix(id, "s") && fnv32(cl.Kind+cl.First+strings.Join(cl.Keys, ","))%4 != 0 {
+			// quick tier: every honest claim of the exhaustive section goes to the model, one in four altered ones
+			res.Hit("range-model:multi-not-sampled")
 		} else {
 			var sb strings.Builder
 			sb.WriteString("r2 " + rcfg + " multi " + cl.Root + " " + cl.First)
@@ -447,6 +450,14 @@ func (c *ctx) evalRange(cl *RangeClaim, pending *batch, rcfg, id string) {
 		res.Violate(lib.Violation{Sig: impl + ":range:" + sigKind + ":has-more-wrong",
 			What: fmt.Sprintf("%s.VerifyRangeProof reports more=%v, the trie has more=%v (%s)", impl, more, moreTruth, cl.Kind), Replay: cl})
 	}
+}
+
+func fnv32(s string) uint32 {
+	h := uint32(2166136261)
+	for i := 0; i < len(s); i++ {
+		h = (h ^ uint32(s[i])) * 16777619
+	}
+	return h
 }
 
 // proofSharesNode: some node of the set is referenced from two places (identical subtrees).
